@@ -1,52 +1,62 @@
-//! A payload WITHOUT drop glue that nevertheless owns strong handles (as raw pointers
-//! obtained from `Rc::into_raw`, the way an FFI embedding stores them). Whether `T`
-//! needs drop is a compile-time property no history can vary, so the adoption-aware
-//! paths get a second, minimal payload type here: small fully recorded adoption graphs,
-//! random release order of the outside handles, observed through Weak handles (there
-//! are no destructor events), judged by the same two-sided rule as C01/C03.
+//! Adoption graphs over payload types OTHER than the instrumented node: the payload type
+//! is a compile-time axis no history can vary (drop glue or not, alignment 1 / 2 / 8,
+//! zero-sized), so the adoption-aware paths get a second, minimal world here. The strong
+//! handles an object "owns" are raw pointers from `Rc::into_raw` kept outside the value
+//! (the way an FFI embedding stores them) and are never released: the model counts them
+//! for ever, also after their owner died. An object whose own count reaches zero is
+//! destroyed alone (nothing releases what it owned, exactly as with std::rc); every other
+//! death is the collection of an orphaned group, which needs no glue at all.
 //!
-//! Stored raw handles are never released (no glue): the model counts them for ever, also
-//! after their holder died. An object whose own count reaches zero is destroyed alone (its
-//! payload leaks what it stored, exactly as it would with std::rc); every other death is
-//! the collection of an orphaned group, which needs no glue at all.
+//! Small fully recorded graphs, random release order of the outside handles (by `drop`
+//! or by `try_unwrap`), observed through Weak handles, the allocator and the link-table
+//! hook (there are no destructor events), judged by the same rules as C01/C03/C04/C08.
 
 use crate::alloc::{self, sut};
 use crate::gen::Rng;
-use cactusref::{Adopt, Rc, Weak};
-use std::cell::Cell;
+use cactusref::{verif, Adopt, Rc, Weak};
 use std::collections::BTreeSet;
 
-const K: usize = 6;
-
+/// alignment 8, no drop glue
 pub struct Raw {
     pub id: usize,
-    pub n: Cell<usize>,
-    pub peers: [Cell<*const Raw>; K],
+    pub pad: [usize; 3],
 }
+#[derive(Clone, Copy)]
+#[repr(C, packed)]
+pub struct Packed1(pub u8, pub u32);
+#[derive(Clone, Copy)]
+#[repr(C, packed(2))]
+pub struct Packed2(pub u8, pub u32);
+
+pub const NTYPES: u32 = 8;
+pub const TYPE_NAMES: [&str; NTYPES as usize] = ["struct (align 8, no drop glue)", "u8 (align 1)", "u16 (align 2)", "() (zero-sized)", "packed struct (align 1)", "packed(2) struct (align 2)", "String (drop glue, owns no handle)", "[u8;3]"];
 
 #[derive(Clone, Debug)]
 pub struct RawCase {
     pub k: usize,
-    /// (owner, target) stored raw handles, all recorded as adoptions
+    pub ty: u32,
+    /// (owner, target) owned raw handles, all recorded as adoptions
     pub edges: Vec<(usize, usize)>,
     /// extra outside clones per object
     pub extra: Vec<usize>,
-    /// release order: object index of the outside handle released at each step
-    pub order: Vec<usize>,
+    /// releases of outside handles: (by try_unwrap?, object)
+    pub order: Vec<(bool, usize)>,
 }
 
 impl RawCase {
     pub fn text(&self) -> String {
         let e: Vec<String> = self.edges.iter().map(|(a, b)| format!("{a}>{b}")).collect();
         let x: Vec<String> = self.extra.iter().map(|v| v.to_string()).collect();
-        let o: Vec<String> = self.order.iter().map(|v| v.to_string()).collect();
-        format!("Raw {};E {};X {};O {}", self.k, e.join(" "), x.join(" "), o.join(" "))
+        let o: Vec<String> = self.order.iter().map(|(u, v)| if *u { format!("u{v}") } else { v.to_string() }).collect();
+        format!("Raw {};T {};E {};X {};O {}", self.k, self.ty, e.join(" "), x.join(" "), o.join(" "))
     }
     pub fn parse(t: &str) -> Result<RawCase, String> {
-        let mut c = RawCase { k: 0, edges: vec![], extra: vec![], order: vec![] };
+        let mut c = RawCase { k: 0, ty: 0, edges: vec![], extra: vec![], order: vec![] };
         for part in t.split(';').map(str::trim) {
             if let Some(r) = part.strip_prefix("Raw ") {
                 c.k = r.trim().parse().map_err(|e| format!("{part}: {e}"))?;
+            } else if let Some(r) = part.strip_prefix("T") {
+                c.ty = r.trim().parse().map_err(|e| format!("{part}: {e}"))?;
             } else if let Some(r) = part.strip_prefix("E") {
                 for e in r.split_whitespace() {
                     let (a, b) = e.split_once('>').ok_or(format!("bad edge {e}"))?;
@@ -55,10 +65,16 @@ impl RawCase {
             } else if let Some(r) = part.strip_prefix("X") {
                 c.extra = r.split_whitespace().map(|v| v.parse().unwrap_or(0)).collect();
             } else if let Some(r) = part.strip_prefix("O") {
-                c.order = r.split_whitespace().map(|v| v.parse().unwrap_or(0)).collect();
+                for v in r.split_whitespace() {
+                    let (u, n) = match v.strip_prefix('u') {
+                        Some(n) => (true, n),
+                        None => (false, v),
+                    };
+                    c.order.push((u, n.parse().map_err(|_| format!("bad release {v}"))?));
+                }
             }
         }
-        if c.k == 0 || c.k > 12 || c.extra.len() != c.k || c.edges.iter().any(|&(a, b)| a >= c.k || b >= c.k) || c.order.iter().any(|&o| o >= c.k) {
+        if c.k == 0 || c.k > 12 || c.ty >= NTYPES || c.extra.len() != c.k || c.edges.iter().any(|&(a, b)| a >= c.k || b >= c.k) || c.order.iter().any(|&(_, o)| o >= c.k) {
             return Err("malformed raw case".into());
         }
         Ok(c)
@@ -68,47 +84,40 @@ impl RawCase {
 pub fn generate(rng: &mut Rng) -> RawCase {
     let k = 1 + rng.below(6);
     let mut edges = vec![];
-    let mut out = vec![0usize; k];
     let shape = rng.below(4);
-    let mut add = |a: usize, b: usize, edges: &mut Vec<(usize, usize)>, out: &mut Vec<usize>| {
-        if out[a] < K {
-            out[a] += 1;
-            edges.push((a, b));
-        }
-    };
     match shape {
         0 => {
             for i in 0..k {
-                add(i, (i + 1) % k, &mut edges, &mut out);
+                edges.push((i, (i + 1) % k));
             }
         }
         1 => {
             for i in 0..k {
                 for j in 0..k {
                     if rng.chance(1, 2) {
-                        add(i, j, &mut edges, &mut out);
+                        edges.push((i, j));
                     }
                 }
             }
         }
         2 => {
             for i in 0..k {
-                add(i, (i + 1) % k, &mut edges, &mut out);
+                edges.push((i, (i + 1) % k));
                 if rng.chance(1, 3) {
-                    add(i, i, &mut edges, &mut out);
+                    edges.push((i, i));
                 }
                 if rng.chance(1, 3) {
-                    add(i, rng.below(k), &mut edges, &mut out);
+                    edges.push((i, rng.below(k)));
                 }
             }
         }
         _ => {
             for i in 0..k {
                 if rng.chance(2, 3) {
-                    add(i, rng.below(k), &mut edges, &mut out);
+                    edges.push((i, rng.below(k)));
                 }
                 if rng.chance(1, 3) {
-                    add(i, rng.below(k), &mut edges, &mut out);
+                    edges.push((i, rng.below(k)));
                 }
             }
         }
@@ -117,24 +126,40 @@ pub fn generate(rng: &mut Rng) -> RawCase {
     let mut order = vec![];
     for i in 0..k {
         for _ in 0..1 + extra[i] {
-            order.push(i);
+            order.push((rng.chance(1, 4), i));
         }
     }
     for i in (1..order.len()).rev() {
         order.swap(i, rng.below(i + 1));
     }
-    RawCase { k, edges, extra, order }
+    RawCase { k, ty: rng.below(NTYPES as usize) as u32, edges, extra, order }
+}
+
+pub type Verdict = Option<(&'static str, &'static str, String, usize)>;
+
+pub fn run(c: &RawCase, on_step: &mut dyn FnMut(usize)) -> Verdict {
+    match c.ty {
+        0 => run_t(c, &|i| Raw { id: i, pad: [i; 3] }, on_step),
+        1 => run_t(c, &|i| i as u8, on_step),
+        2 => run_t(c, &|i| i as u16, on_step),
+        3 => run_t(c, &|_| (), on_step),
+        4 => run_t(c, &|i| Packed1(i as u8, 7), on_step),
+        5 => run_t(c, &|i| Packed2(i as u8, 7), on_step),
+        6 => run_t(c, &|i| format!("object {i}"), on_step),
+        _ => run_t(c, &|i| [i as u8; 3], on_step),
+    }
 }
 
 /// Returns None if the case held, or (kind, cause, message, step).
-pub fn run(c: &RawCase, on_step: &mut dyn FnMut(usize)) -> Option<(&'static str, &'static str, String, usize)> {
+fn run_t<T>(c: &RawCase, mk: &dyn Fn(usize) -> T, on_step: &mut dyn FnMut(usize)) -> Verdict {
     let k = c.k;
-    let mut outside: Vec<Vec<Rc<Raw>>> = (0..k).map(|_| vec![]).collect();
-    let mut weaks: Vec<Weak<Raw>> = vec![];
+    let tname = TYPE_NAMES[c.ty as usize];
+    let mut outside: Vec<Vec<Rc<T>>> = (0..k).map(|_| vec![]).collect();
+    let mut weaks: Vec<Weak<T>> = vec![];
     let mut addr: Vec<(usize, u32)> = vec![];
     for i in 0..k {
-        let r = sut(|| Rc::new(Raw { id: i, n: Cell::new(0), peers: std::array::from_fn(|_| Cell::new(std::ptr::null())) }));
-        let a = cactusref::verif::rcbox_addr(&r);
+        let r = sut(|| Rc::new(mk(i)));
+        let a = verif::rcbox_addr(&r);
         addr.push((a, alloc::block_gen(a)));
         weaks.push(sut(|| Rc::downgrade(&r)));
         outside[i].push(r);
@@ -147,43 +172,107 @@ pub fn run(c: &RawCase, on_step: &mut dyn FnMut(usize)) -> Option<(&'static str,
     }
     // model
     let mut alive = vec![true; k];
-    let mut raw_to = vec![0u32; k]; // raw handles to each object, from anyone, for ever
+    let mut raw_to = vec![0u32; k]; // owned raw handles to each object, from anyone, for ever
     let mut adopt = vec![vec![0u32; k]; k];
+    let mut leaked: Vec<*const T> = vec![];
     for &(a, b) in &c.edges {
         let h = sut(|| Rc::clone(&outside[b][0]));
         sut(|| unsafe { Rc::adopt_unchecked(&outside[a][0], &h) });
-        let p = sut(|| Rc::into_raw(h));
-        let o = &outside[a][0];
-        let n = o.n.get();
-        o.peers[n].set(p);
-        o.n.set(n + 1);
+        leaked.push(sut(|| Rc::into_raw(h)));
         raw_to[b] += 1;
         adopt[a][b] += 1;
     }
-    let observe = |alive: &Vec<bool>, outside: &Vec<Vec<Rc<Raw>>>, raw_to: &Vec<u32>, weaks: &Vec<Weak<Raw>>, step: usize| -> Option<(&'static str, &'static str, String, usize)> {
+    let observe = |alive: &Vec<bool>, outside: &Vec<Vec<Rc<T>>>, raw_to: &Vec<u32>, adopt: &Vec<Vec<u32>>, weaks: &Vec<Weak<T>>, step: usize| -> Verdict {
         for i in 0..k {
             let sc = sut(|| weaks[i].strong_count());
             let expect = if alive[i] { outside[i].len() as u32 + raw_to[i] } else { 0 };
             if alive[i] && sc == 0 {
-                return Some(("premature-destruction", "raw-payload-object-destroyed", format!("object {i} (payload without drop glue) is dead although it is reachable or not collectable: expected {expect} strong handles"), step));
+                return Some(("premature-destruction", "other-payload-object-destroyed", format!("payload {tname}: object {i} is dead although it is reachable or not collectable: expected {expect} strong handles"), step));
             }
             if sc as u32 != expect {
-                return Some(("count-mismatch", "raw-payload-strong-count", format!("object {i} (payload without drop glue): strong count {sc}, expected {expect}"), step));
+                return Some(("count-mismatch", "other-payload-strong-count", format!("payload {tname}: object {i} has strong count {sc}, expected {expect}"), step));
             }
             if !alive[i] && sut(|| weaks[i].upgrade()).is_some() {
-                return Some(("weak-resurrect", "raw-payload-upgrade", format!("Weak to collected object {i} upgraded"), step));
+                return Some(("weak-resurrect", "other-payload-upgrade", format!("payload {tname}: Weak to dead object {i} upgraded"), step));
+            }
+        }
+        // the link tables against the adoptions made (objects we can still reach through a handle)
+        for i in 0..k {
+            let Some(h) = outside[i].first() else { continue };
+            let snap = verif::links_snapshot(h);
+            for &(a, kind, count) in &snap {
+                let Some(p) = addr.iter().position(|&(x, _)| x == a) else {
+                    return Some(("stale-record", "other-payload-unknown-address", format!("payload {tname}: the bookkeeping of object {i} names address {a:#x}, which is no object"), step));
+                };
+                if !alive[p] {
+                    return Some(("stale-record", "other-payload-names-dead", format!("payload {tname}: the bookkeeping of object {i} still has an entry (kind {kind}, count {count}) naming object {p}, which is destroyed or whose allocation was given up"), step));
+                }
+                let want = match kind {
+                    verif::KIND_FORWARD => Some(adopt[i][p]),
+                    verif::KIND_BACKWARD => Some(adopt[p][i]),
+                    _ => None,
+                };
+                // (a self adoption through a clone is a forward and a backward entry naming the
+                // object itself; loopback entries come from adopting through the same handle)
+                if kind == verif::KIND_LOOPBACK && p != i {
+                    return Some(("ledger-mismatch", "other-payload-kind", format!("payload {tname}: object {i} has an entry of kind {kind} naming object {p}"), step));
+                }
+                if let Some(w) = want {
+                    if w as usize != count {
+                        return Some(("ledger-mismatch", "other-payload-count", format!("payload {tname}: object {i} has an entry (kind {kind}) for object {p} with count {count}, the adoptions made imply {w}"), step));
+                    }
+                }
+            }
+            for t in 0..k {
+                if t != i && adopt[i][t] > 0 && !snap.iter().any(|&(a, kind, _)| kind == verif::KIND_FORWARD && a == addr[t].0) {
+                    return Some(("ledger-mismatch", "other-payload-missing", format!("payload {tname}: object {i} adopted object {t} {} time(s) but has no forward entry for it", adopt[i][t]), step));
+                }
+                if t != i && adopt[t][i] > 0 && !snap.iter().any(|&(a, kind, _)| kind == verif::KIND_BACKWARD && a == addr[t].0) {
+                    return Some(("asymmetric-record", "other-payload-missing", format!("payload {tname}: object {i} was adopted by object {t} {} time(s) but has no backward entry for it", adopt[t][i]), step));
+                }
             }
         }
         None
     };
-    if let Some(v) = observe(&alive, &outside, &raw_to, &weaks, 0) {
+    if let Some(v) = observe(&alive, &outside, &raw_to, &adopt, &weaks, 0) {
         return Some(v);
     }
-    for (step, &x) in c.order.iter().enumerate() {
+    for (step, &(unwrap, x)) in c.order.iter().enumerate() {
         on_step(step + 1);
         let Some(h) = outside[x].pop() else { continue };
+        if unwrap {
+            // try_unwrap: succeeds iff this is the only strong handle; the allocation is then
+            // given up and every record naming it must go
+            let unique = alive[x] && outside[x].is_empty() && raw_to[x] == 0;
+            if (0..k).any(|t| adopt[x][t] > 0 || adopt[t][x] > 0) {
+                crate::report::F_CONSUMING.store(true, std::sync::atomic::Ordering::Relaxed);
+            }
+            match sut(|| Rc::try_unwrap(h)) {
+                Ok(v) => {
+                    sut(move || drop(v));
+                    if !unique {
+                        return Some(("api-result", "other-payload-try_unwrap-ok", format!("payload {tname}: try_unwrap on object {x} succeeded although other strong handles exist"), step + 1));
+                    }
+                    alive[x] = false;
+                    for t in 0..k {
+                        adopt[x][t] = 0;
+                        adopt[t][x] = 0;
+                    }
+                }
+                Err(h) => {
+                    if unique {
+                        return Some(("api-result", "other-payload-try_unwrap-err", format!("payload {tname}: try_unwrap on the only strong handle to object {x} failed"), step + 1));
+                    }
+                    outside[x].push(h);
+                }
+            }
+            if let Some(v) = observe(&alive, &outside, &raw_to, &adopt, &weaks, step + 1) {
+                return Some(v);
+            }
+            continue;
+        }
         // what must happen: the closure of x over recorded adoptions is collected iff every
-        // strong handle to every member is a recorded adoption held by a member
+        // strong handle to every member is a recorded adoption owned by a member
         let mut set = BTreeSet::new();
         let mut work = vec![x];
         while let Some(o) = work.pop() {
@@ -196,8 +285,7 @@ pub fn run(c: &RawCase, on_step: &mut dyn FnMut(usize)) -> Option<(&'static str,
                 }
             }
         }
-        // a count that reaches zero destroys x alone: its value has no glue, so the raw
-        // handles it stored are leaked by the payload (as with std::rc), not released
+        // a count that reaches zero destroys x alone: nothing releases the raw handles it owned
         let zero = alive[x] && outside[x].len() as u32 + raw_to[x] == 0;
         let orphan = alive[x]
             && !zero
@@ -220,19 +308,19 @@ pub fn run(c: &RawCase, on_step: &mut dyn FnMut(usize)) -> Option<(&'static str,
             }
             for &s in &set {
                 if sut(|| weaks[s].strong_count()) != 0 {
-                    return Some(("not-collected", "raw-payload-group-left", format!("the group {:?} of objects whose payload has no drop glue became orphaned (every handle a recorded adoption inside it) but object {s} is still alive", set), step + 1));
+                    return Some(("not-collected", "other-payload-group-left", format!("payload {tname}: the group {:?} became orphaned (every handle a recorded adoption inside it) but object {s} is still alive", set), step + 1));
                 }
             }
         }
-        if let Some(v) = observe(&alive, &outside, &raw_to, &weaks, step + 1) {
+        if let Some(v) = observe(&alive, &outside, &raw_to, &adopt, &weaks, step + 1) {
             return Some(v);
         }
     }
-    // collected objects: allocation pinned by our Weak until it is dropped, then released
+    // dead objects: allocation pinned by our Weak until it is dropped, then released
     for i in 0..k {
         let (a, g) = addr[i];
         if !alive[i] && alloc::block_state_gen(a, g) != alloc::BlockState::Live {
-            return Some(("released-early", "raw-payload-allocation", format!("allocation of collected object {i} released while a Weak exists"), c.order.len()));
+            return Some(("released-early", "other-payload-allocation", format!("payload {tname}: allocation of dead object {i} released while a Weak exists"), c.order.len()));
         }
     }
     let dead: Vec<bool> = alive.iter().map(|a| !a).collect();
@@ -241,8 +329,9 @@ pub fn run(c: &RawCase, on_step: &mut dyn FnMut(usize)) -> Option<(&'static str,
     for i in 0..k {
         let (a, g) = addr[i];
         if dead[i] && alloc::block_state_gen(a, g) != alloc::BlockState::Released {
-            return Some(("not-released", "raw-payload-allocation", format!("allocation of collected object {i} not released after the last Weak was dropped"), c.order.len()));
+            return Some(("not-released", "other-payload-allocation", format!("payload {tname}: allocation of dead object {i} not released after the last Weak was dropped"), c.order.len()));
         }
     }
+    drop(leaked);
     None
 }
